@@ -94,7 +94,8 @@ class _W:
             b.raw(" header")
             for _ in range(before):
                 b.comment_nl()
-                b.raw(ind + "words " + prose)
+                # (now and then a stray carriage return in the middle of a comment line: not a line break for anybody)
+                b.raw(ind + "words " + prose + ("stray\rCR " if r.random() < 0.2 else ""))
             b.comment_nl()
             b.raw(ind + prose)
             t = b.tag("start", src, amap)
